@@ -27,7 +27,7 @@ func init() {
 
 func runC09(c *Ctx) {
 	if !importing {
-		importObls(c, "C12", runC12, "X12", func(k string) bool { return containsAny(k, "common/probdist") })
+		importObls(c, "C12", runC12, "X12", func(k string) bool { return containsAny(k, "common/probdist", "common/drbg") })
 		// the IAT mode a bridge runs with is the one its operator configured (C18.R3: the override reaches the state)
 		importObls(c, "C18", runC18, "X18", func(k string) bool { return containsAny(k, "serverStateFromArgs#override-persisted") })
 	}
